@@ -28,6 +28,7 @@ type c19Sweeper struct {
 	contact []byte
 	cid     []byte
 	seed    []byte
+	logIDs  [][]byte // identifiers of entries of the baseline group's message and metadata logs, in write order
 }
 
 func (s *c19Sweeper) baselineBytes(name string) []byte {
@@ -81,8 +82,53 @@ func (s *c19Sweeper) baseline(m protoreflect.Message, depth int) {
 }
 
 type c19Variant struct {
-	label string
-	apply func(m protoreflect.Message)
+	label   string
+	apply   func(m protoreflect.Message)
+	timeout time.Duration // 0 = the default of 3 s
+}
+
+// pairVariants varies TWO identifier-like bytes fields of a request together: every ordered pair of the identifiers of the
+// baseline group's own log entries (messages and metadata). "since after until", "a metadata id where a message id belongs"
+// and the like are combinations of individually valid values, which a one-field sweep never produces.
+func (s *c19Sweeper) pairVariants(desc protoreflect.MessageDescriptor) []c19Variant {
+	var ids []protoreflect.FieldDescriptor
+	fields := desc.Fields()
+	for i := 0; i < fields.Len(); i++ {
+		f := fields.Get(i)
+		n := string(f.Name())
+		if f.Kind() == protoreflect.BytesKind && !f.IsList() && (strings.Contains(n, "cid") || strings.HasSuffix(n, "_id") || n == "id") {
+			ids = append(ids, f)
+		}
+	}
+	var out []c19Variant
+	for i := 0; i < len(ids); i++ {
+		for j := 0; j < len(ids); j++ {
+			if i >= j {
+				continue
+			}
+			fi, fj := ids[i], ids[j]
+			for a, va := range s.logIDs {
+				for b, vb := range s.logIDs {
+					va, vb := va, vb
+					for _, rev := range []bool{false, true} {
+						rev := rev
+						out = append(out, c19Variant{
+							label: fmt.Sprintf("%s=log-entry#%d,%s=log-entry#%d,reverse=%v", fi.Name(), a, fj.Name(), b, rev),
+							apply: func(m protoreflect.Message) {
+								m.Set(fi, protoreflect.ValueOfBytes(va))
+								m.Set(fj, protoreflect.ValueOfBytes(vb))
+								if rf := m.Descriptor().Fields().ByName("reverse_order"); rf != nil && rf.Kind() == protoreflect.BoolKind {
+									m.Set(rf, protoreflect.ValueOfBool(rev))
+								}
+							},
+							timeout: 300 * time.Millisecond, // a bounded listing never ends by itself: the argument handling is over long before
+						})
+					}
+				}
+			}
+		}
+	}
+	return out
 }
 
 // variants lists the one-field-at-a-time modifications of a message (recursing one level into sub-messages).
@@ -107,13 +153,13 @@ func (s *c19Sweeper) variants(desc protoreflect.MessageDescriptor, path []protor
 		name := prefix + string(f.Name())
 		set := func(label string, v protoreflect.Value) {
 			if f.IsList() {
-				out = append(out, c19Variant{name + "=[" + label + "]", func(m protoreflect.Message) { at(m).Mutable(f).List().Append(v) }})
+				out = append(out, c19Variant{label: name + "=[" + label + "]", apply: func(m protoreflect.Message) { at(m).Mutable(f).List().Append(v) }})
 				return
 			}
-			out = append(out, c19Variant{name + "=" + label, func(m protoreflect.Message) { at(m).Set(f, v) }})
+			out = append(out, c19Variant{label: name + "=" + label, apply: func(m protoreflect.Message) { at(m).Set(f, v) }})
 		}
 		if !f.IsList() {
-			out = append(out, c19Variant{name + "=unset", func(m protoreflect.Message) { at(m).Clear(f) }})
+			out = append(out, c19Variant{label: name + "=unset", apply: func(m protoreflect.Message) { at(m).Clear(f) }})
 		}
 		switch f.Kind() {
 		case protoreflect.BytesKind:
@@ -220,6 +266,17 @@ func TestVerifC19Sweep(t *testing.T) {
 			_, _ = svc.ActivateGroup(ctx, &protocoltypes.ActivateGroup_Request{GroupPk: r.GroupPk, LocalOnly: true})
 			if m, err := svc.AppMessageSend(ctx, &protocoltypes.AppMessageSend_Request{GroupPk: r.GroupPk, Payload: []byte("x")}); err == nil {
 				sw.cid = m.Cid
+				sw.logIDs = append(sw.logIDs, m.Cid)
+			}
+			for k := 0; k < 3; k++ {
+				if m, err := svc.AppMessageSend(ctx, &protocoltypes.AppMessageSend_Request{GroupPk: r.GroupPk, Payload: []byte(fmt.Sprintf("x%d", k))}); err == nil {
+					sw.logIDs = append(sw.logIDs, m.Cid)
+				}
+			}
+			for k := 0; k < 3; k++ {
+				if m, err := svc.AppMetadataSend(ctx, &protocoltypes.AppMetadataSend_Request{GroupPk: r.GroupPk, Payload: []byte(fmt.Sprintf("m%d", k))}); err == nil {
+					sw.logIDs = append(sw.logIDs, m.Cid)
+				}
 			}
 			pools.bytes = append(pools.bytes, r.GroupPk)
 		}
@@ -271,15 +328,20 @@ func TestVerifC19Sweep(t *testing.T) {
 					continue
 				}
 				proto0 := reflect.New(reqT.Elem()).Interface().(proto.Message)
-				vars := append([]c19Variant{{"baseline", func(protoreflect.Message) {}}}, sw.variants(proto0.ProtoReflect().Descriptor(), nil, 0)...)
+				vars := append([]c19Variant{{label: "baseline", apply: func(protoreflect.Message) {}}}, sw.variants(proto0.ProtoReflect().Descriptor(), nil, 0)...)
+				vars = append(vars, sw.pairVariants(proto0.ProtoReflect().Descriptor())...)
 				for _, v := range vars {
-					if slow[name] >= 2 {
-						break
+					if slow[name] >= 2 && v.timeout == 0 {
+						continue
 					}
 					req := reflect.New(reqT.Elem()).Interface().(proto.Message)
 					sw.baseline(req.ProtoReflect(), 0)
 					v.apply(req.ProtoReflect())
-					cctx, cancel := context.WithTimeout(ctx, 3*time.Second)
+					callTimeout := 3 * time.Second
+					if v.timeout > 0 {
+						callTimeout = v.timeout
+					}
+					cctx, cancel := context.WithTimeout(ctx, callTimeout)
 					done := make(chan struct{})
 					var pnc interface{}
 					var stack string
@@ -300,7 +362,7 @@ func TestVerifC19Sweep(t *testing.T) {
 						rep.Count("hanging_calls", 1)
 					}
 					cancel()
-					if time.Since(t0) > 2500*time.Millisecond {
+					if v.timeout == 0 && time.Since(t0) > 2500*time.Millisecond {
 						slow[name]++
 						if slow[name] == 2 {
 							skipped = append(skipped, name+"/"+state)
